@@ -251,6 +251,23 @@ def run(ctx):
                       "%s reads the shared event stream (line(s) %s) in the bare `Variant` notation: the node that follows the variant name in the enclosing container is consumed as its payload (`[A, 5]` -> `[A(5)]`)" %
                       (g.name, sorted({g.blocks[b]["term"].get("ln") for b in leak})), config, ctx.where(g))
         ctx.floor("OWN-NODE.VA.stream-uses", nuse, 20, config)
+        # KIND: a variant's payload is requested by its declared kind — struct_variant through deserialize_struct / _map,
+        # tuple_variant through deserialize_tuple / _seq — never through the typeless deserialize_any, which follows the
+        # document's shape instead (a sequence would then fill a struct variant's fields by position).
+        nk = 0
+        for g in fx.fns.values():
+            if g.d.get("impl_trait") != "serde::de::VariantAccess" or g.name not in ("struct_variant", "tuple_variant") or not g.file.endswith("src/de.rs"):
+                continue
+            want = {"struct_variant": {"deserialize_struct", "deserialize_map"}, "tuple_variant": {"deserialize_tuple", "deserialize_seq", "deserialize_tuple_struct"}}[g.name]
+            des = [last_seg(fx.callee(t)) for b, t in g.calls() if fx.callee(t).startswith(D) or "serde::Deserializer" in fx.callee_decl(t)]
+            des = [d for d in des if d.startswith("deserialize_")]
+            if not des:
+                continue
+            nk += 1
+            ctx.saw(g)
+            ctx.check(set(des) <= want, "KIND", "C05:KIND:%s:%s" % (g.d.get("impl_adt"), g.name), "payload requested as %s" % sorted(set(des)),
+                      "%s of %s requests its payload through %s instead of %s: the payload's kind is no longer checked against the variant's declared shape (`{Rect: [1, 2]}` fills a struct variant by position)" % (g.name, g.d.get("impl_adt"), sorted(set(des) - want), sorted(want)), config, ctx.where(g))
+        ctx.floor("KIND.variant-payload-sites", nk, 4, config)
         # SIBLING: every crate-local VariantAccess::unit_variant whose access object carries an event source
         # accepts only an absent / null-like payload
         uvs = [g for g in fx.fns.values() if g.name == "unit_variant" and g.d.get("impl_trait") == "serde::de::VariantAccess"]
